@@ -54,8 +54,13 @@ func init() {
 			switch res {
 			case "accounts":
 				ws.Sort = Pick(r, []string{"", "", "address:desc", "address:asc"})
+				if r.Chance(0.4) {
+					// a filtered listing: the filter travels inside the cursors from the second page on
+					ws.Filter, ws.Keep = `{"$match":{"address":"u:"}}`, "u2"
+				}
 			case "volumes":
 				ws.Sort = "" // by account, ascending (ties between the assets of an account: account, then asset)
+				// (a filter on volumes by address pattern compiles to a lateral join the interpreter does not run)
 			default:
 				ws.Sort = Pick(r, []string{"", "", "id:asc", "id:desc"})
 			}
@@ -130,6 +135,9 @@ func checkWalks(r *runner) []Violation {
 		}
 		ws := or.Op.Walk
 		what := fmt.Sprintf("%s walk of %s on %s (pageSize %d, sort %q)", or.Op.ID, ws.Resource, or.Op.Ledger, ws.PageSize, ws.Sort)
+		if ws.Filter != "" {
+			what += " filtered by " + ws.Filter
+		}
 		bad := false
 		for i, pg := range or.Pages {
 			if pg.Status != 200 {
@@ -172,6 +180,15 @@ func checkWalks(r *runner) []Violation {
 			}
 		}
 		created := r.entityEvents(or.Op.Ledger, ws.Resource)
+		if ws.Keep == "u2" {
+			for id := range created {
+				account, _, _ := strings.Cut(id, "/")
+				segs := strings.Split(account, ":")
+				if len(segs) != 2 || segs[0] != "u" || segs[1] == "" {
+					delete(created, id)
+				}
+			}
+		}
 		// pages-are-full
 		for i, pg := range fwd {
 			if (pg.Next != "") != pg.HasMore {
